@@ -335,3 +335,10 @@ package parser
 //@   use before strings.ReplaceAll#1: unesc_amp(arg0)
 //@   use before strings.ReplaceAll#2: unesc_sq(arg0)
 //@   use before strings.ReplaceAll#3: unesc_dq(arg0)
+
+// C06: ParseString parses exactly the text it is given, from its first byte: every position the parser records is a
+// position in the caller's string (inputs of 2 GiB and more are outside the claim).
+//@ func ParseString [C06]
+//@   requires len(template) < 1<<31
+//@   modifies *
+//@   assert before NewTemplateFileParser().Parse#1: arg0 != nil && arg0.s == old(template) && arg0.charIndex == 0
